@@ -32,6 +32,38 @@ fn emit(ctx: &mut Ctx, supply: Value) {
     ctx.call("sbf", inp, tables);
 }
 
+fn points(inp: &Value) -> Value {
+    let sup = build_supply(&inp["supply"]);
+    let mut dflt = inp["supply"].clone();
+    dflt["default_inverse"] = json!(true);
+    let sup_d = build_supply(&dflt);
+    let sbf: Vec<u64> = us(&inp["xs"]).into_iter().map(|x| u64::from(sup.provided_service(d(x)))).collect();
+    let st: Vec<u64> = us(&inp["ds"]).into_iter().map(|x| u64::from(sup.service_time(s(x)))).collect();
+    let std: Vec<u64> = us(&inp["ds"]).into_iter().map(|x| u64::from(sup_d.service_time(s(x)))).collect();
+    json!({ "sbf": sbf, "st": st, "std": std })
+}
+
+/// isolated large arguments (hundreds of periods): the closed form must hold there too
+fn emit_points(ctx: &mut Ctx, supply: Value) {
+    let (q, p) = match kind(&supply) {
+        "dedicated" => (1, 1),
+        _ => (u(&supply["Q"]), u(&supply["P"])),
+    };
+    let mut xs = vec![];
+    let mut ds = vec![];
+    for _ in 0..12 {
+        let k = ctx.rng.gen_range(1..=400u64);
+        let off = ctx.rng.gen_range(0..=2 * p);
+        xs.push(k * p + off);
+        xs.push((k * p + off).saturating_sub(p - q));
+        let kd = ctx.rng.gen_range(1..=400u64);
+        ds.push(kd * q);
+        ds.push(kd * q + ctx.rng.gen_range(0..=q));
+        ds.push((kd * q).saturating_sub(1));
+    }
+    ctx.call("sbf_points", json!({ "supply": supply, "xs": xs, "ds": ds }), points);
+}
+
 pub fn run(ctx: &mut Ctx) {
     let pmax = if ctx.thorough { 40 } else { 14 };
     emit(ctx, json!({ "k": "dedicated" }));
@@ -49,10 +81,12 @@ pub fn run(ctx: &mut Ctx) {
         let p = ctx.rng.gen_range(1..=big);
         let q = ctx.rng.gen_range(1..=p);
         let dl = ctx.rng.gen_range(q..=p);
-        if ctx.rng.gen_bool(0.3) {
-            emit(ctx, json!({ "k": "periodic", "Q": q, "P": p }));
+        let sd = if ctx.rng.gen_bool(0.3) {
+            json!({ "k": "periodic", "Q": q, "P": p })
         } else {
-            emit(ctx, json!({ "k": "constrained", "Q": q, "D": dl, "P": p }));
-        }
+            json!({ "k": "constrained", "Q": q, "D": dl, "P": p })
+        };
+        emit(ctx, sd.clone());
+        emit_points(ctx, sd);
     }
 }
